@@ -6,6 +6,8 @@ import Memterm.Props.C18
 import Memterm.Props.C08
 import Memterm.Props.C12
 import Memterm.Props.C14
+import Memterm.Props.C15
+import Memterm.Props.C16
 
 /-
   Executable property predicates, evaluated by the driver on the
@@ -32,6 +34,10 @@ def propFailures (_env : Env) (cands : List Nat) (pre : Screen) (c : Call) (post
   (if C12.propC12 cands pre c post then [] else
     [("C12", s!"mode membership or a documented side effect of {c.name} is wrong (columns={post.columns}, cursor=({post.cursor.x},{post.cursor.y}), hidden={post.cursor.hidden})")]) ++
   (if C14.propC14 cands pre c post then [] else
-    [("C14", s!"saved-cursor stack / restored state after {c.name} differ from the documented outcome (depth {post.savepoints.length}, cursor=({post.cursor.x},{post.cursor.y}))")])
+    [("C14", s!"saved-cursor stack / restored state after {c.name} differ from the documented outcome (depth {post.savepoints.length}, cursor=({post.cursor.x},{post.cursor.y}))")]) ++
+  (if C15.propC15 cands pre c post then [] else
+    [("C15", "state after reset differs from the power-on state of a screen of the current size")]) ++
+  (if C16.propC16 cands pre c post then [] else
+    [("C16", s!"state after resize differs from the documented outcome ({post.columns}x{post.lines}, cursor=({post.cursor.x},{post.cursor.y}), margins {repr post.margins})")])
 
 end Memterm
